@@ -435,6 +435,60 @@ type Leaf struct {
 // call result as a leaf (used for the calls a rule wants to see itself).
 func (s *Sem) Leaves(k Conj, fn *ssa.Function, ret *ssa.Return, v ssa.Value, stop func(*ssa.Call) bool, depth int) []Leaf {
 	v = Unwrap(v)
+	// a field of the struct a helper handed back: the value the helper stored into that field, per return
+	if base, field, ok := FieldOfLoad(v); ok && depth > 0 {
+		b := Unwrap(base)
+		if u, isU := b.(*ssa.UnOp); isU && u.Op == token.MUL {
+			b = Unwrap(u.X)
+		}
+		if call, _ := callResult(b); call != nil && (stop == nil || !stop(call)) {
+			if cases, isCall := s.ResultCases(k, b); isCall && len(cases) > 0 {
+				var out []Leaf
+				resolved := true
+				for _, rc := range cases {
+					rv := Unwrap(rc.Val)
+					if c, isC := rv.(*ssa.Const); isC && isZeroConst(c) {
+						continue // the caller's facts (result != nil) exclude it, or the field is never read
+					}
+					var cell *ssa.Alloc
+					switch x := rv.(type) {
+					case *ssa.Alloc:
+						cell = x
+					case *ssa.UnOp:
+						cell, _ = x.X.(*ssa.Alloc)
+					}
+					if cell == nil {
+						resolved = false
+						break
+					}
+					kk := k
+					for _, f := range rc.K.List() {
+						kk = kk.With(f)
+					}
+					m := 0
+					for _, ref := range *cell.Referrers() {
+						fa, isFA := ref.(*ssa.FieldAddr)
+						if !isFA || fieldName(fa.X.Type(), fa.Field) != field {
+							continue
+						}
+						for _, r2 := range *fa.Referrers() {
+							if st, isSt := r2.(*ssa.Store); isSt && st.Addr == ssa.Value(fa) {
+								m++
+								out = append(out, s.Leaves(kk, rc.Fn, rc.Ret, st.Val, stop, depth-1)...)
+							}
+						}
+					}
+					if m == 0 {
+						resolved = false
+						break
+					}
+				}
+				if resolved && len(out) > 0 {
+					return out
+				}
+			}
+		}
+	}
 	if cl, _ := callResult(v); cl != nil && depth > 0 && (stop == nil || !stop(cl)) {
 		if cases, ok := s.ResultCases(k, v); ok && len(cases) > 0 {
 			var out []Leaf
